@@ -318,6 +318,13 @@ class Weaver:
                     body = src[bo + 1:bc]
                     for m in re.finditer(rb"\bself\b", body):
                         ed.replace(bo + 1 + m.start(), bo + 1 + m.end(), "kvx_self", "D6")
+            elif inp.get("name"):
+                # `mut x: T` -> `x: T` plus `let mut x = x;` (shadowing): the same thing for an ordinary by-value parameter
+                ptxt = src[inp["span"][0]:inp["span"][1]].decode("utf-8")
+                mm = re.match(r"mut\s+", ptxt)
+                if mm:
+                    ed.replace(inp["span"][0], inp["span"][0] + len(mm.group(0)), "", "D6")
+                    ed.insert(it["body_open"] + 1, f" let mut {inp['name']} = {inp['name']}; ", "D6")
         # D2: attributes and doc comments on the fn, and attributes inside the body
         for a in it["attrs"]:
             ed.replace(a["span"][0], a["span"][1], "", "D2")
